@@ -337,6 +337,9 @@ def random_cases(draw):
                     and model_fields.verdict(field, fmt, cell)[0] == "reject"]
         if examples:
             field["example"] = draw(st.sampled_from(examples))
+            if draw(st.booleans()):
+                # ... and a first, generous declaration of the allowed characters in front of the field
+                fmt["allowed_at_first"] = draw(st.sampled_from(["32...", "0...", "32...255, 256..."]))
     return {"fmt": fmt, "field": field, "cells": cells}
 
 
